@@ -146,6 +146,22 @@ def run_case(case):
         return decide((res_name, row.get('id', 0)))
     handler = {'default': None, 'raise': sv.raise_exception, 'drop': sv.drop, 'ignore': sv.ignore,
                'clear': sv.clear, 'custom4': h4, 'custom5': h5}[policy]
+    if policy == 'custom4':
+        # other shapes of a documented 4-argument handler: with a keyword-only parameter, **kwargs, a bound keyword
+        shape_ = boot.rng(case['seed'], 'C14', 'hshape', case['idx']).choice(['plain', 'plain', 'kwonly', 'varkw', 'partial_kw'])
+        cov.setdefault('handler_shape', {})[shape_] = 1
+        if shape_ == 'kwonly':
+            def handler(res_name, row, i, e, *, note=None):       # noqa: F811
+                return h4(res_name, row, i, e)
+        elif shape_ == 'varkw':
+            def handler(res_name, row, i, e, **extra):            # noqa: F811
+                return h4(res_name, row, i, e)
+        elif shape_ == 'partial_kw':
+            import functools
+
+            def h4_tag(res_name, row, i, e, tag=None):
+                return h4(res_name, row, i, e)
+            handler = functools.partial(h4_tag, tag='t')
     transform = None
     tcalls = {}         # (field, row id) -> number of times the transform was applied to that cell in the judged run
     steps_pre = []
